@@ -204,6 +204,22 @@ pub fn check_lookups(v: &Value, r: &RVal) -> Result<u64, String> {
 					return Err(format!("contains_key({:?}) = {}", k, o.contains_key(k)));
 				}
 				n += 6;
+				if wanti.len() >= 2 && wanti.len() <= 64 && o.len() <= 4096 {
+					// mutable lookup, in order
+					let mut c = o.clone();
+					let got: Vec<RVal> = c.get_mut(k).map(|v| to_rval(v)).collect();
+					if got != wantv {
+						return Err(format!("get_mut({:?}) yields {:?}, entries carrying that key hold {:?}", k, got, wantv));
+					}
+					// every way of consuming the lookup iterators
+					n += crate::monitor::check_iter(&format!("indexes_of({:?})", k), &|| o.indexes_of(k), &wanti)?;
+					let ptrs: Vec<usize> = wanti.iter().map(|&i| &o.entries()[i].value as *const Value as usize).collect();
+					n += crate::monitor::check_iter(&format!("get({:?})", k), &|| o.get(k).map(|v| v as *const Value as usize), &ptrs)?;
+					let wi: Vec<(usize, usize)> = wanti.iter().zip(&ptrs).map(|(i, p)| (*i, *p)).collect();
+					n += crate::monitor::check_iter(&format!("get_with_index({:?})", k), &|| o.get_with_index(k).map(|(i, v)| (i, v as *const Value as usize)), &wi)?;
+					let ep: Vec<usize> = wanti.iter().map(|&i| &o.entries()[i] as *const json_syntax::object::Entry as usize).collect();
+					n += crate::monitor::check_iter(&format!("get_entries({:?})", k), &|| o.get_entries(k).map(|e| e as *const json_syntax::object::Entry as usize), &ep)?;
+				}
 			}
 			for (e, (_, rv)) in o.iter().zip(ro) {
 				n += check_lookups(&e.value, rv)?;
@@ -429,6 +445,20 @@ impl Mon {
 
 	fn c02_c05(&mut self, fam: &str, b: &[u8], rd: &Reading, text: Option<&str>, rs: &PRes, want: bool) {
 		if !want {
+			// C05 also holds for documents accepted only under lenient options
+			if self.flags.c05 && rd.grammar_ok() && rd.root.is_some() {
+				let mut results: Vec<(&'static str, PRes)> = Vec::new();
+				for o in Opts::ALL {
+					if o != Opts::STRICT && rd.accepts(o) {
+						results.push(("parse_slice_with(lenient options)", real::parse_slice_with(b, o)));
+						if let Some(s) = text {
+							results.push(("parse_str_with(lenient options)", real::parse_str_with(s, o)));
+						}
+						self.rep.count("code_maps_under_lenient_options", 1);
+					}
+				}
+				self.compare_results(fam, b, rd, &results);
+			}
 			return;
 		}
 		let mut results: Vec<(&'static str, PRes)> = vec![("parse_slice_with", rs.clone())];
@@ -440,7 +470,20 @@ impl Mon {
 				results.push(("parse_infallible", real::parse_entry(10, s, Opts::STRICT)));
 			}
 		}
-		for (entry, r) in &results {
+		// the typed `Parse` impls on documents that are exactly one scalar token
+		if let (Some(s), Some(root)) = (text, &rd.root) {
+			if rd.frags.len() == 1 && rd.frags[0].start == 0 && rd.frags[0].end == b.len() && !matches!(root, RVal::Arr(_) | RVal::Obj(_)) {
+				let kind = s.chars().next().unwrap_or('0');
+				results.push(("typed Parse impl (str)", real::parse_typed(kind, s, false)));
+				results.push(("typed Parse impl (slice)", real::parse_typed(kind, s, true)));
+				self.rep.count("typed_parse_impl_calls", 2);
+			}
+		}
+		self.compare_results(fam, b, rd, &results);
+	}
+
+	fn compare_results(&mut self, fam: &str, b: &[u8], rd: &Reading, results: &[(&'static str, PRes)]) {
+		for (entry, r) in results {
 			let (v, map) = match r {
 				Ok(x) => x,
 				Err(PErr::Panic(m)) => {
@@ -448,7 +491,13 @@ impl Mon {
 					self.viol(p, "panic", fam, format!("{} panicked: {}", entry, m), b, json!({"entry": entry}));
 					continue;
 				}
-				Err(_) => continue, // acceptance is C01's business
+				Err(e) => {
+					if entry.starts_with("typed") {
+						let p = if self.flags.c02 { "C02" } else { "C05" };
+						self.viol(p, "typed-impl-rejects", fam, format!("{} rejects a valid scalar document: {:?}", entry, e), b, json!({"entry": entry}));
+					}
+					continue; // acceptance through the Value entry points is C01's business
+				}
 			};
 			if self.flags.c02 {
 				if self.compare_tree("C02", entry, fam, b, rd, v) {
@@ -551,6 +600,21 @@ impl Mon {
 				if !self.compare_tree("C12", &format!("parse_slice_with({})", oname), fam, b, rd, v) {
 					continue;
 				}
+				// the code map is exact under every option value as well
+				if rd.root.is_some() {
+					let want: Vec<(usize, usize, usize)> = rd.frags.iter().map(|f| (f.start, f.end, f.volume)).collect();
+					if *map != want {
+						let i = map.iter().zip(&want).position(|(a, b)| a != b).unwrap_or(map.len().min(want.len()));
+						self.viol(
+							"C12",
+							&format!("code-map-under-options:{}", oname),
+							fam,
+							format!("under {} code-map entry {} is {:?}, the fragment is {:?} (lengths {} / {})", oname, i, map.get(i), want.get(i), map.len(), want.len()),
+							b,
+							json!({"options": oname}),
+						);
+					}
+				}
 				if want_strict {
 					if let Ok((v0, m0)) = rs {
 						if v != v0 || map != m0 {
@@ -567,6 +631,26 @@ impl Mon {
 				}
 			}
 			if let Some(s) = text {
+				// every entry point that takes options must honour them
+				if self.tick % 8 == 1 || b.len() <= 5 || fam == "surrogate-element-sequences" {
+					for i in 0..real::STR_ENTRIES.len() {
+						if !real::entry_takes_options(i) {
+							continue;
+						}
+						let r3 = real::parse_entry(i, s, o);
+						self.rep.count("option_entry_point_calls", 1);
+						if r3 != r {
+							self.viol(
+								"C12",
+								&format!("entry-ignores-options:{}", real::STR_ENTRIES[i]),
+								fam,
+								format!("under {} {} returns {:?} but parse_slice_with returns {:?}", oname, real::STR_ENTRIES[i], r3.as_ref().map(|_| "Ok"), r.as_ref().map(|_| "Ok")),
+								b,
+								json!({"options": oname, "entry": real::STR_ENTRIES[i]}),
+							);
+						}
+					}
+				}
 				if self.tick % 4 == 0 {
 					let r2 = real::parse_str_with(s, o);
 					if r2.is_ok() != want {
@@ -1270,6 +1354,97 @@ pub fn fam_large(cfg: &Config, flags: Flags, docs: usize, nodes: usize) -> (Repo
 		mon.rep.distinct_bytes(doc.as_bytes());
 		mon.input(name, doc.as_bytes());
 		crate::oracle::rfc8259::drop_iter(v);
+	})
+}
+
+const SWEEP_PREFIXES: [&str; 44] = [
+	"", "[", "[1,", "{", "{\"a\":1,", "{\"a\"", "{\"a\":", "1 ", "[1 ", "{\"a\":1 ", "t", "tr", "tru", "f", "fa", "fal", "fals", "n", "nu", "nul",
+	"-", "0", "12", "1.", "1.5", "1e", "1e+", "1e5", "[-", "[0", "[12", "[1.", "[1.5", "[1e", "[1e5", "{\"a\":12", "\"a", "\"\\", "\"\\u",
+	"\"\\u1", "\"\\u12", "\"\\u12a", "[\"\\uD834", "{\"k",
+];
+
+/// Every Unicode scalar value as the next character in every lexical state
+/// of the grammar (44 prefixes x 1,112,064 characters).
+pub fn fam_unicode_sweep(cfg: &Config, flags: Flags) -> (Report, Vec<u8>) {
+	let name = "unicode-sweep-at-every-lexical-state";
+	run_family(cfg, flags, name, SWEEP_PREFIXES.len() * 17, &|i, mon| {
+		let prefix = SWEEP_PREFIXES[i / 17];
+		let plane = (i % 17) as u32;
+		let mut buf = String::with_capacity(prefix.len() + 8);
+		let mut n = 0u64;
+		for u in plane * 0x10000..(plane + 1) * 0x10000 {
+			if let Some(c) = char::from_u32(u) {
+				buf.clear();
+				buf.push_str(prefix);
+				buf.push(c);
+				mon.input(name, buf.as_bytes());
+				n += 1;
+			}
+		}
+		mon.rep.distinct_by_construction(n);
+		if i == 22 * 17 {
+			mon.rep.sample(json!({"family": name, "input": "12<c> for each of the 1,112,064 scalar values c; likewise after 43 other prefixes"}));
+		}
+	})
+}
+
+/// Multi-byte characters placed around every power-of-two offset from 4 KiB to
+/// 192 KiB (block boundaries of buffered decoders), in valid documents and in
+/// documents with an error after the boundary.
+pub fn fam_block_boundaries(cfg: &Config, flags: Flags) -> (Report, Vec<u8>) {
+	let name = "multi-byte-characters-at-block-boundaries";
+	const BLOCKS: [usize; 7] = [4096, 8192, 16384, 32768, 65536, 131072, 196608];
+	run_family(cfg, flags, name, BLOCKS.len() * 13, &|i, mon| {
+		let b = BLOCKS[i / 13];
+		let delta = (i % 13) as isize - 6;
+		let at = (b as isize + delta) as usize; // offset of the first byte of the character
+		let mut n = 0u64;
+		for ch in ['\u{e9}', '\u{20ac}', '\u{1f600}'] {
+			for shape in 0..4 {
+				let mut doc: Vec<u8> = Vec::with_capacity(at + 64);
+				match shape {
+					0 | 1 => {
+						// inside a long string
+						doc.push(b'"');
+						doc.resize(at, b'a');
+						let mut tmp = [0u8; 4];
+						doc.extend_from_slice(ch.encode_utf8(&mut tmp).as_bytes());
+						doc.extend_from_slice(b"tail\"");
+						if shape == 1 {
+							doc.extend_from_slice(b" x");
+						}
+					}
+					2 => {
+						// inside a long array of short strings
+						doc.push(b'[');
+						while doc.len() + 6 < at {
+							doc.extend_from_slice(b"\"ab\",");
+						}
+						doc.push(b'"');
+						doc.resize(at, b'b');
+						let mut tmp = [0u8; 4];
+						doc.extend_from_slice(ch.encode_utf8(&mut tmp).as_bytes());
+						doc.extend_from_slice(b"\"]");
+					}
+					_ => {
+						// ill-formed byte right after the character
+						doc.push(b'"');
+						doc.resize(at, b'a');
+						let mut tmp = [0u8; 4];
+						doc.extend_from_slice(ch.encode_utf8(&mut tmp).as_bytes());
+						doc.push(0xff);
+						doc.extend_from_slice(b"\"");
+					}
+				}
+				mon.rep.max("largest_document_bytes", doc.len() as u64);
+				mon.input(name, &doc);
+				n += 1;
+			}
+		}
+		mon.rep.distinct_by_construction(n);
+		if i == 4 * 13 + 3 {
+			mon.rep.sample(json!({"family": name, "input": "\"aaaa...(65532 x a)<U+1F600>tail\" and variants around every offset 2^12..2^17"}));
+		}
 	})
 }
 
